@@ -204,6 +204,12 @@ func genWfList(rng *rand.Rand, maxCert int) ([]byte, string) {
 	if rng.Intn(6) == 0 {
 		n = 0
 	}
+	// X.509 entries whose bytes happen to be PEM text (stored data is opaque to the decoder)
+	pemText := kind == "x509" && rng.Intn(8) == 0
+	if pemText {
+		dl = len(pem.EncodeToMemory(&pem.Block{Type: "CERTIFICATE", Bytes: make([]byte, 30+rng.Intn(200))}))
+		kind = "x509-pemtext"
+	}
 	sigs := make([][]byte, n)
 	for i := range sigs {
 		var o util.EFIGUID
@@ -212,7 +218,17 @@ func genWfList(rng *rand.Rand, maxCert int) ([]byte, string) {
 		}
 		var b bytes.Buffer
 		binary.Write(&b, binary.LittleEndian, o)
-		b.Write(randBytes(rng, dl))
+		if pemText {
+			// the PEM length depends only on the DER length: find a DER length giving dl bytes
+			for k := 1; k < 400; k++ {
+				if e := pem.EncodeToMemory(&pem.Block{Type: "CERTIFICATE", Bytes: randBytes(rng, k)}); len(e) == dl {
+					b.Write(e)
+					break
+				}
+			}
+		} else {
+			b.Write(randBytes(rng, dl))
+		}
 		sigs[i] = b.Bytes()
 	}
 	size := uint32(16 + dl)
@@ -271,7 +287,7 @@ func (c *Ctx) evalDecode(op, class string, in []byte, entry string, match map[st
 
 func init() {
 	checkers["C07"] = checker{
-		rule: "streams from a grammar generator (0..n lists; X.509 lists with any certificate size incl. empty data and any count incl. zero; SHA-256 lists; externally managed lists; any owners; any order), the repository's .esl files and captured variables, and databases built through Append/Remove/AppendList; each stream is decoded by the implementation (ReadSignatureDatabase, Unmarshal, repeated ReadSignatureList) in the sandboxed worker and R_C07 (extracted) requires exactly the model's lists and a byte-identical re-encoding; non-trivial = the model decodes at least one list; distinct by input hash",
+		rule: "streams from a grammar generator (0..n lists; X.509 lists with any certificate size incl. empty data and any count incl. zero, incl. entries whose bytes are PEM text; SHA-256 lists; externally managed lists; any owners; any order), the repository's .esl files and captured variables, and databases built through Append/Remove/AppendList; each stream is decoded by the implementation (ReadSignatureDatabase, Unmarshal, repeated ReadSignatureList) in the sandboxed worker and R_C07 (extracted) requires exactly the model's lists and a byte-identical re-encoding, and for operation-built databases (extracted check_c07_built) that the lists the implementation holds encode per the layout to a stream that decodes to an equal database; non-trivial = the model decodes at least one list; distinct by input hash",
 		run:  runC07,
 	}
 	checkers["C08"] = checker{
@@ -306,7 +322,17 @@ func runC07(c *Ctx) {
 		steps := strings.Split(o.Fields[0], "&")
 		last := strings.Split(steps[len(steps)-1], "~")
 		db := parseDbArg(last[1])
-		c.evalDecode("c07_decode", "ops-built", db.Bytes(), decodeEntries(rng), nil)
+		enc := db.Bytes()
+		c.evalDecode("c07_decode", "ops-built", enc, decodeEntries(rng), nil)
+		// the database the operations built must itself encode to a well-formed stream that decodes to it
+		od := c.Impl("db_decode", hx(enc), "read")
+		fields := od.Fields
+		if od.Class != "ret" || len(fields) == 0 {
+			fields = []string{od.Class}
+		}
+		bargs := append([]string{last[1], hx(enc)}, fields...)
+		v, info := c.Drv.Eval("c07_built", bargs...)
+		c.Rep.Record("built-roundtrip", "ops-built", len(db) > 0, fmt.Sprintf("%d lists", len(db)), bargs, v, info, nil)
 	}
 }
 
